@@ -50,6 +50,7 @@ func init() {
 			{ID: "C15-R27", Title: "a case for a type can be reached by a value of that type", Floor: 20, Run: aCaseForATypeCanBeReachedByAValueOfThatType},
 			{ID: "C15-R28", Title: "equality is not handed back and forth between two types (shared with C03-R41)", Floor: 1, Run: equalityIsNotHandedBackAndForth},
 			{ID: "C15-R29", Title: "an infinity is ordered by its sign", Floor: 1, Run: anInfinityIsOrderedByItsSign},
+			{ID: "C15-R30", Title: "raw string text decides nothing where the literal is a template (shared with C01-R14)", Floor: 1, Run: plainStringConstantsOnlyForPlainStrings},
 		},
 	})
 }
